@@ -77,9 +77,10 @@ class Report:
                 continue
             self.finding(rule, "%s|%s" % (module_name.upper(), fd["key"].split("|", 1)[1]), "%s: %s" % (why, fd["msg"]), fd["loc"])
         for o in sub.obligations:
-            if o["ok"] and (only_rules is None or o["rule"] in only_rules):
+            if only_rules is None or o["rule"] in only_rules:
                 n += 1
-                self.ok(rule, "%s %s: %s" % (module_name.upper(), o["rule"], o["desc"]), o["loc"])
+                if o["ok"]:
+                    self.ok(rule, "%s %s: %s" % (module_name.upper(), o["rule"], o["desc"]), o["loc"])
         self.floor(rule, "obligations taken over from %s" % module_name.upper(), n, floor)
 
     def count(self, name, n):
